@@ -809,8 +809,20 @@ func (r *c18Runner) cli(args []string, stdin string) run.CLIResult {
 		}
 	}
 	full = append(full, args...)
+	dir := r.abs(c18Cwd)
+	if r.cs.Mode == "clif" {
+		// the program file lies in the directory the other modes run in; the command runs somewhere else, so that a
+		// relative search path of the program can only be found relative to the program file
+		dir = r.abs("elsewhere")
+		if n := len(full); n > 0 {
+			file := filepath.Join(r.abs(c18Cwd), "main-program.jq")
+			if os.WriteFile(file, []byte(full[n-1]), 0o644) == nil {
+				full = append(full[:n-1:n-1], "-f", file)
+			}
+		}
+	}
 	return run.CLI(run.CLIOpt{Args: full, Stdin: []byte(stdin),
-		Env: []string{"PATH=/usr/bin:/bin", "HOME=" + r.abs("home"), "LANG=C"}, Dir: r.abs(c18Cwd)})
+		Env: []string{"PATH=/usr/bin:/bin", "HOME=" + r.abs("home"), "LANG=C"}, Dir: dir})
 }
 
 func c18ParseOut(b []byte) ([]any, error) {
@@ -1085,7 +1097,7 @@ var kC18 = run.NewKind("c18.tree", func(c *run.Ctx, t c18Case) *run.Fail {
 	}
 	defer os.RemoveAll(root)
 	r := &c18Runner{cs: cs, root: root}
-	for _, d := range []string{"p0", "p1", "p2", c18Cwd, "home"} {
+	for _, d := range []string{"p0", "p1", "p2", c18Cwd, "home", "elsewhere"} {
 		if err := os.MkdirAll(r.abs(d), 0o755); err != nil {
 			c.Inconclusive("mkdir")
 			return nil
